@@ -212,17 +212,12 @@ Definition wf_fs (t : fs) : bool :=
 Definition wf_cwd (cwd : str) : bool :=
   match cwd with [] => true | _ => is_abs cwd end && negb (existsb (N.eqb 0) cwd).
 
-(* existence of a pathname: the final symbolic link is not followed *)
+(* existence of a pathname: the final symbolic link is not followed (a dangling
+   link is an existing pathname) *)
 Definition ExpectedL (t : fs) (cwd : str) := Expected (fs_opendir t cwd) (fs_lstat t cwd).
-(* ... and as glob.rs tests it for a literal last component (link followed) *)
-Definition ExpectedF (t : fs) (cwd : str) := Expected (fs_opendir t cwd) (fs_stat t cwd).
 
 Definition fs_oracle (t : fs) (cwd : str) : bool -> list achar -> outcome -> option N :=
   oracle (fs_opendir t cwd) (fs_lstat t cwd) (fs_universe t).
-
-(* every symbolic link can be followed to an existing file *)
-Definition links_resolve (t : fs) (cwd : str) : Prop :=
-  forall p, fs_lstat t cwd p = true -> fs_stat t cwd p = true.
 
 (* a character that quoting (or its origin in a tilde expansion etc.) makes literal *)
 Definition lit_char (c : achar) : Prop :=
@@ -231,8 +226,8 @@ Definition lit_char (c : achar) : Prop :=
 (* an unquoted field, e.g. the result of an unquoted parameter expansion *)
 Definition soft_field (s : str) : list achar := map (fun c => AC c OSoft false false) s.
 
-(* the witness of the one incompleteness: sub/dl is a symbolic link to a file
-   that does not exist; the field is */dl *)
+(* a dangling link: sub/dl is a symbolic link to a file that does not exist; the
+   field is */dl (before the repair 7d0a5f7 of glob.rs this pathname was missed) *)
 Definition dangling_tree : fs :=
   [([[115; 117; 98]], KDir true); ([[115; 117; 98]; [100; 108]], KLink [122; 122])].
 Definition dangling_field : list achar := soft_field [42; 47; 100; 108].
